@@ -195,7 +195,9 @@ func Render(s *Scenario) Rendered {
 			dir, pkgName = "", "main"
 			names = fileNames[rng.Intn(len(fileNames))]
 		}
-		twoFiles := false
+		// the command always has a second file (decorations only, unless the layout puts roots there):
+		// every scenario can be built from a file list in two orders
+		twoFiles := pk == "m"
 		for k, rt := range s.Prog.Roots {
 			if rt.Pkg == pk && s.RFile[k] == 2 {
 				twoFiles = true
